@@ -13,7 +13,7 @@ func init() {
 		Run: runC15,
 		Decided: "Provide and PutValue of the dual client call the WAN DHT on the true edge and the LAN DHT on the false edge of WANActive(), which is `WAN.RoutingTable().Size() > 0` (R1); GetValue returns the WAN value when the WAN lookup succeeded, else the LAN value when that succeeded, else the combined error, cancels LAN only after WAN success and always awaits it (R2); " +
 			"the constructor installs the public filters/address filter on the WAN list and the LAN extension, private filters and non-loopback filter on the LAN list before the user's options, each list goes to its own DHT, and the option setters and makeDHT wire them to the fields the DHT consults (R3); " +
-			"the DHT writes peer addresses to the peerstore only through maybeAddAddrs with filterAddrs applied, reads host addresses only to filter them, stores/serves provider addresses filtered, and follows a response peer only if it passes the query filter or is the target (R4); the merged provider stream and FindPeer's union/error rule (R5).",
+			"the DHT writes peer addresses to the peerstore only through maybeAddAddrs with filterAddrs applied, reads host addresses only to filter them, stores/serves provider addresses filtered, and follows a response peer only if it passes the query filter or is the target (R4); the merged provider stream and FindPeer's union/error rule (R5). Added after the seeded rounds: a return of dual.GetValue that is not one of the three decided outcomes is a violation (R2); every ADD_PROVIDER names {self, FilteredAddrs()} (R4).",
 		NotDecided: "correctness of the public/private/loopback/relay classifiers themselves (pure functions over IP values).",
 	})
 }
